@@ -294,6 +294,42 @@ def caller_arrays_scenario():
                              "replay": {"kind": "c11-program", "script": script + ["a = Transfer(FromArray, k, T); a.transfer_function", "b = Transfer(FromArray, k, T); b.transfer_function != a.transfer_function"]}})
             a.update(lnk_min=-6.0); a.transfer_function; n += 1
             unchanged("a.update(lnk_min=-6.0); a.transfer_function")
+        # caller-owned arrays handed to the other components that take arrays: WDM recalibrations (m, dndm0), fits (nu2, m, n_eff), filters (k, power)
+        from hmf.alternatives import wdm as wdm_
+        from hmf.mass_function import fitting_functions as ff_
+        from hmf.density_field import filters as flt_
+        m_ = 10 ** np.linspace(7, 14, 12); d_ = m_ ** -1.9
+        m0_, d0_ = m_.copy(), d_.copy()
+        for cname_ in ("Schneider12_vCDM", "Schneider12", "Lovell14"):
+            comp_ = getattr(wdm_, cname_)(m=m_, dndm0=d_, wdm=wdm_.Viel05(mx=1.0))
+            r1_ = np.array(comp_.dndm_alter(), float); r2_ = np.array(comp_.dndm_alter(), float); n += 1
+            if not (np.array_equal(m_, m0_) and np.array_equal(d_, d0_)):
+                viol.append({"key": f"caller-arrays/{cname_}", "what": f"{cname_}.dndm_alter() modified the caller's m/dndm0 arrays (dndm0[0] {d0_[0]:.6g} -> {d_[0]:.6g})", "replay": {"kind": "c11-program", "script": [f"c = {cname_}(m=m, dndm0=d, wdm=Viel05(mx=1.0)); c.dndm_alter()", "d changed"]}})
+                m_[:] = m0_; d_[:] = d0_
+            elif not np.array_equal(r1_, r2_):
+                viol.append({"key": f"repeat-call/{cname_}", "what": f"{cname_}.dndm_alter() gives different values when called twice", "replay": {"kind": "c11-program", "script": [f"c = {cname_}(...); c.dndm_alter(); c.dndm_alter()"]}})
+        nu2_ = np.array([0.3, 1.0, 4.0]); mm_ = np.array([1e10, 1e12, 1e14]); ne_ = np.array([-2.0, -1.5, -1.0])
+        snap_ = (nu2_.copy(), mm_.copy(), ne_.copy())
+        for fname_ in sorted(ff_.FittingFunction._plugins):
+            try:
+                fo_ = ff_.FittingFunction._plugins[fname_](nu2=nu2_, m=mm_, n_eff=ne_, z=0.5, delta_c=1.686)
+                fo_.fsigma; fo_.cutmask; n += 1
+            except Exception:
+                continue
+            if not (np.array_equal(nu2_, snap_[0]) and np.array_equal(mm_, snap_[1]) and np.array_equal(ne_, snap_[2])):
+                viol.append({"key": f"caller-arrays/fit/{fname_}", "what": f"{fname_}: evaluating fsigma/cutmask modified the caller's nu2/m/n_eff arrays", "replay": {"kind": "c11-program", "script": [f"f = {fname_}(nu2=nu2, m=m, n_eff=n_eff, z=0.5); f.fsigma; f.cutmask"]}})
+                nu2_[:], mm_[:], ne_[:] = snap_
+        kk_ = np.exp(np.linspace(-8, 4, 80)); pp_ = kk_ ** 0.96 / (1 + (kk_ / 0.02) ** 3.5)
+        kp_ = (kk_.copy(), pp_.copy()); rr_ = np.array([1.0, 4.0, 8.0]); rr0_ = rr_.copy()
+        for wname_ in ("TopHat", "Gaussian", "SharpK", "SharpKEllipsoid"):
+            fo_ = getattr(flt_, wname_)(kk_, pp_)
+            try:
+                fo_.sigma(rr_); fo_.sigma(rr_, 1); fo_.dlnss_dlnm(rr_); fo_.mass_to_radius(mm_, 1e11); n += 1
+            except Exception:
+                pass
+            if not (np.array_equal(kk_, kp_[0]) and np.array_equal(pp_, kp_[1]) and np.array_equal(rr_, rr0_)):
+                viol.append({"key": f"caller-arrays/filter/{wname_}", "what": f"{wname_}: sigma/dlnss_dlnm modified the caller's k/power/radius arrays", "replay": {"kind": "c11-program", "script": [f"f = {wname_}(k, P); f.sigma(r); f.sigma(r, 1); f.dlnss_dlnm(r)"]}})
+                kk_[:], pp_[:] = kp_; rr_[:] = rr0_
     seen, outv = set(), []
     for v in viol:
         if v["key"] not in seen:
@@ -364,6 +400,41 @@ def registry_scenario():
     return viol, n
 
 
+def isolation_scenario(quick):
+    """outputs do not depend on which other instances (frameworks or components) were created earlier in the process: configurations that a
+    careless class- or module-level memo would confuse (equal densities but another CMB temperature; equal Om0 but another Ode0; clones of one
+    astropy model, which share their name; the same redshift) are evaluated one after the other and compared with their value in a fresh
+    interpreter"""
+    import isolation
+    F = lambda **kw: dict({"class": "FlatLambdaCDM", "H0": 70.0, "Om0": 0.3, "Ob0": 0.05, "Tcmb0": 2.725}, **kw)
+    L = lambda **kw: dict({"class": "LambdaCDM", "H0": 70.0, "Om0": 0.3, "Ode0": 0.7, "Ob0": 0.05, "Tcmb0": 2.725}, **kw)
+    lnk = [-6.0, -3.0, -1.0, 0.5, 2.0]
+    nu2 = [0.3, 1.0, 3.0, 8.0]; mm = [1e10, 1e12, 1e14, 1e15]
+    cfgs = []
+    for model in ("EH_BAO", "EH_NoBAO", "BBKS"):
+        cfgs += [{"kind": "transfer_model", "model": model, "cosmo": F(), "lnk": lnk, "note": f"{model}, Tcmb0=2.725"},
+                 {"kind": "transfer_model", "model": model, "cosmo": F(Tcmb0=2.0), "lnk": lnk, "note": f"{model}, same Om0/Ob0/H0, Tcmb0=2.0"},
+                 {"kind": "transfer_model", "model": model, "cosmo": F(H0=60.0, Om0=0.36, Ob0=0.06), "lnk": lnk, "note": f"{model}, same Om0 h^2 and Ob0 h^2, other h"}]
+    for model in ("Carroll1992", "GrowthFactor", "GenMFGrowth"):
+        cfgs += [{"kind": "growth", "model": model, "cosmo": L(Tcmb0=0.0), "z": [0.0, 1.0, 3.0], "note": f"{model}, Om0=0.3 Ode0=0.7"},
+                 {"kind": "growth", "model": model, "cosmo": L(Ode0=0.0, Tcmb0=0.0), "z": [0.0, 1.0, 3.0], "note": f"{model}, same Om0, Ode0=0"}]
+    cfgs += [{"kind": "fit", "model": "Watson", "z": 1.0, "nu2": nu2, "m": mm, "mdef_params": {"overdensity": 200}, "cosmo": {"class": "x", "clone_of": "Planck15", "Om0": 0.25}, "note": "Watson z=1, Planck15.clone(Om0=0.25)"},
+             {"kind": "fit", "model": "Watson", "z": 1.0, "nu2": nu2, "m": mm, "mdef_params": {"overdensity": 200}, "cosmo": {"class": "x", "clone_of": "Planck15", "Om0": 0.4}, "note": "Watson z=1, Planck15.clone(Om0=0.4): same astropy name"},
+             {"kind": "fit", "model": "Tinker08", "z": 1.0, "nu2": nu2, "m": mm, "mdef": "SOCritical", "mdef_params": {"overdensity": 300}, "cosmo": {"class": "x", "clone_of": "Planck15", "Om0": 0.25}, "note": "Tinker08/SOCritical z=1, Om0=0.25"},
+             {"kind": "fit", "model": "Tinker08", "z": 1.0, "nu2": nu2, "m": mm, "mdef": "SOCritical", "mdef_params": {"overdensity": 300}, "cosmo": {"class": "x", "clone_of": "Planck15", "Om0": 0.4}, "note": "Tinker08/SOCritical z=1, Om0=0.4: same astropy name"}]
+    fw = dict(transfer_model="EH", lnk_min=-8.0, lnk_max=4.0, dlnk=0.25, Mmin=10.0, Mmax=14.0, dlog10m=0.5, z=1.0, mdef_model="SOCritical", hmf_model="Tinker08")
+    cfgs += [{"kind": "framework", "cls": "MassFunction", "kwargs": fw, "cosmo": {"class": "x", "clone_of": "Planck15", "Om0": 0.27}, "quantities": ["dndm", "halo_overdensity_mean", "power"], "note": "MassFunction, Planck15.clone(Om0=0.27)"},
+             {"kind": "framework", "cls": "MassFunction", "kwargs": fw, "cosmo": {"class": "x", "clone_of": "Planck15", "Om0": 0.33}, "quantities": ["dndm", "halo_overdensity_mean", "power"], "note": "MassFunction, Planck15.clone(Om0=0.33): same astropy name"}]
+    if not quick:
+        cfgs += [{"kind": "growth", "model": "CambGrowth", "cosmo": L(), "z": [0.0, 1.0], "note": "CambGrowth flat"}, {"kind": "growth", "model": "CambGrowth", "cosmo": L(Ode0=0.4), "z": [0.0, 1.0], "note": "CambGrowth same Om0, Ode0=0.4"}]
+    bad = isolation.check_sequence(cfgs, "isolation")
+    viol = []
+    for i, what in bad[:3]:
+        viol.append({"key": f"isolation/{cfgs[i]['kind']}/{cfgs[i].get('model', cfgs[i].get('cls'))}", "what": what,
+                     "replay": {"kind": "c11-isolation", "sequence": [c.get("note") for c in cfgs[: i + 1]], "failing": cfgs[i]}})
+    return viol, len(cfgs)
+
+
 def run(ctx):
     quick = ctx["tier"] == "quick"
     out = {"violations": [], "broken": [], "coverage": {}, "assumptions": [
@@ -384,6 +455,9 @@ def run(ctx):
     gv, nreg_ = registry_scenario()
     out["violations"] += gv
     narr += nreg_
+    iv, niso_ = isolation_scenario(quick)
+    out["violations"] += iv
+    narr += niso_
     nprog = 40 if quick else 400
     tot, kinds = ncamb + narr, {}
     samples = []
@@ -400,7 +474,7 @@ def run(ctx):
     out["coverage"] = {
         "evaluations": tot + st["ops"], "programs": st["programs"] + nprog, "disagreements_checked": st["programs"],
         "traces_validated_against_impl": st["programs"], "distinct_nontrivial": nprog + st["programs"],
-        "rule": "heapcorr: random programs over 2-3 MassFunctionWDM instances (construction from shared caller dicts, update/assign, deepcopy/clone/pickle, caller-side mutation, component instantiation), identity partition + contents compared with the Lean heap model. snapshot oracle: random programs over all five classes with bystander snapshots after every operation; caller-owned k/T arrays of FromArray (3 tables; component and framework, two instances from the same arrays); plugin registries under models given as class objects (built-in, abstract, name-shadowing user classes)",
+        "rule": "heapcorr: random programs over 2-3 MassFunctionWDM instances (construction from shared caller dicts, update/assign, deepcopy/clone/pickle, caller-side mutation, component instantiation), identity partition + contents compared with the Lean heap model. snapshot oracle: random programs over all five classes with bystander snapshots after every operation; caller-owned k/T arrays of FromArray (3 tables; component and framework, two instances from the same arrays); plugin registries under models given as class objects (built-in, abstract, name-shadowing user classes); isolation: look-alike configurations evaluated in sequence vs each alone in a fresh interpreter",
         "heap": st, "read_purity_reads": npure, "snapshot_ops": tot, "snapshot_op_kinds": kinds, "samples": [st["sample"]] + samples,
         "search": "bystander-snapshot oracle on random multi-instance programs",
     }
